@@ -5,7 +5,7 @@ use spdcalc::dim::ucum::{HZ, M, RAD, S};
 use spdcalc::prelude::*;
 use spdcalc::utils::{frequency_to_wavenumber, vacuum_wavelength_to_frequency};
 use spdcalc::{
-  efficiencies_from_counts, fwhm_to_spectral_width, get_counts_correction, phasematch_singles_fiber_coupling, Frequency,
+  efficiencies_from_counts, fwhm_to_spectral_width, get_counts_correction, phasematch_singles_fiber_coupling, Efficiencies, Frequency,
   JSIUnits, PerMeter3, PeriodicPoling,
 };
 
@@ -826,6 +826,441 @@ fn boundary(ctx: &mut Ctx, p: &Pm) {
 }
 
 // ------------------------------------------------------------------------------------------------
+// S: rates over ANY grid — grids far outside the usual window
+// ------------------------------------------------------------------------------------------------
+
+/// a grid as the caller hands it to `SPDC::efficiencies` (anything `Into<FrequencySpace>`)
+#[derive(Clone, Copy)]
+enum AnyRange {
+  F(FrequencySpace),
+  W(WavelengthSpace),
+  SD(SumDiffFrequencySpace),
+}
+
+impl AnyRange {
+  fn freq(&self) -> FrequencySpace {
+    match self {
+      AnyRange::F(f) => *f,
+      AnyRange::W(w) => FrequencySpace::from(*w),
+      AnyRange::SD(d) => FrequencySpace::from(*d),
+    }
+  }
+  fn efficiencies(&self, s: &SPDC, integ: Integrator) -> Efficiencies {
+    match self {
+      AnyRange::F(f) => s.efficiencies(*f, integ),
+      AnyRange::W(w) => s.efficiencies(*w, integ),
+      AnyRange::SD(d) => s.efficiencies(*d, integ),
+    }
+  }
+}
+
+/// "rates summed over any grid are non-negative and finite and all three heralding efficiencies lie in [0, 1]": grids
+/// that reach zero frequency, negative frequencies, beyond the pump frequency, huge spans, grids entirely off the
+/// support (where the Sellmeier equations are undefined, beyond the pump frequency, outside the pump envelope),
+/// wavelength-space grids from the UV to far beyond the transparency window, and grids with a single point on a side.
+/// `kind` names the shape.
+fn far_grids(ctx: &mut Ctx, p: &Pm) -> Vec<(String, AnyRange)> {
+  use spdcalc::dim::f64prefixes::MICRO;
+  let (w0s, w0i) = (fr(p.s.signal.frequency()), fr(p.s.idler.frequency()));
+  let wp = fr(p.s.pump.frequency());
+  let f = |x: f64| x * RAD / S;
+  let fs = |a: (f64, f64, usize), b: (f64, f64, usize)| AnyRange::F(FrequencySpace::new((f(a.0), f(a.1), a.2), (f(b.0), f(b.1), b.2)));
+  let odd = |ctx: &mut Ctx| *ctx.rng.pick(&[3usize, 5, 7, 9, 21]);
+  let any = |ctx: &mut Ctx| *ctx.rng.pick(&[2usize, 3, 4, 6, 8, 11]);
+  let mut v: Vec<(String, AnyRange)> = Vec::new();
+  // everything energy conservation allows: [0, ω_p]²
+  let n = odd(ctx);
+  v.push(("zero-to-pump".into(), fs((0.0, wp, n), (0.0, wp, n))));
+  // from zero frequency to twice the centre frequency of each photon (odd n: the central pair is on the grid)
+  let n = odd(ctx);
+  v.push(("zero-to-twice-centre".into(), fs((0.0, 2.0 * w0s, n), (0.0, 2.0 * w0i, n))));
+  // a marginal scan: one axis from zero to the pump frequency, the other stays around the centre
+  let a = (1.3 * p.d_pm).min(2.0 * p.sigma);
+  let n = *ctx.rng.pick(&[5usize, 9, 21, 41]);
+  if ctx.rng.coin() {
+    v.push(("signal-axis-from-zero".into(), fs((0.0, if ctx.rng.coin() { wp } else { 2.0 * w0s }, n), (w0i - a, w0i + a, 3))));
+  } else {
+    v.push(("idler-axis-from-zero".into(), fs((w0s - a, w0s + a, 3), (0.0, if ctx.rng.coin() { wp } else { 2.0 * w0i }, n))));
+  }
+  match ctx.rng.below(6) {
+    0 => {
+      // negative frequencies
+      let n = odd(ctx);
+      v.push(("negative-to-pump".into(), fs((-wp, wp, n), (-wp, wp, n))));
+    }
+    1 => {
+      let n = any(ctx);
+      v.push(("negative-half-to-beyond-pump".into(), fs((-0.5 * wp, 1.5 * wp, n), (-0.5 * wp, 1.5 * wp, n))));
+    }
+    2 => {
+      // beyond the pump frequency
+      let n = any(ctx);
+      v.push(("centre-to-beyond-pump".into(), fs((w0s, 3.0 * wp, n), (w0i, 3.0 * wp, n))));
+    }
+    3 => {
+      // huge spans
+      let n = odd(ctx);
+      let h = *ctx.rng.pick(&[1e3, 1e6, 1e12]);
+      v.push(("huge-span".into(), fs((w0s - h * wp, w0s + h * wp, n), (w0i - h * wp, w0i + h * wp, n))));
+    }
+    4 => {
+      // wavelength space from the UV to the far infrared (beyond every Sellmeier range)
+      let n = any(ctx);
+      let (lo, hi) = (0.2 * MICRO * M, *ctx.rng.pick(&[30.0, 100.0, 1000.0]) * MICRO * M);
+      v.push(("wavelength-space/uv-to-far-infrared".into(), AnyRange::W(WavelengthSpace::new((lo, hi, n), (lo, hi, n)))));
+    }
+    _ => {
+      // half-sum / half-difference axes: the half-difference reaches ∓ω_p/2, i.e. a photon of zero frequency
+      let n = odd(ctx);
+      v.push((
+        "sum-diff-space/difference-to-zero-frequency".into(),
+        AnyRange::SD(SumDiffFrequencySpace::new((f(0.5 * wp - p.sigma), f(0.5 * wp + p.sigma), 3), (f(-0.5 * wp), f(0.5 * wp), n))),
+      ));
+    }
+  }
+  // entirely off the support
+  match ctx.rng.below(5) {
+    0 => {
+      // photon frequencies so low that no dispersion formula is defined (λ ≥ 16 λ_pump)
+      let n = any(ctx);
+      v.push(("off-support/near-zero".into(), fs((0.0, 0.06 * wp, n), (0.0, 0.06 * wp, n))));
+    }
+    1 => {
+      let n = any(ctx);
+      v.push(("off-support/beyond-pump".into(), fs((1.01 * wp, 2.0 * wp, n), (1.01 * wp, 2.0 * wp, n))));
+    }
+    2 => {
+      // one photon near zero frequency, the other near the pump frequency: energy is conserved, the pair lies
+      // outside the validity box |ω_s − ω_i| ≤ 0.75 ω_p
+      let n = odd(ctx);
+      if ctx.rng.coin() {
+        v.push(("off-support/one-photon-near-zero".into(), fs((0.0, 0.1 * wp, n), (0.9 * wp, wp, n))));
+      } else {
+        v.push(("off-support/one-photon-near-zero".into(), fs((0.9 * wp, wp, n), (0.0, 0.1 * wp, n))));
+      }
+    }
+    3 => {
+      let n = any(ctx);
+      v.push(("off-support/negative".into(), fs((-2.0 * wp, -0.1 * wp, n), (-2.0 * wp, -0.1 * wp, n))));
+    }
+    _ => {
+      // outside the pump envelope: the whole grid beyond the threshold contour
+      let n = any(ctx);
+      let thr = p.s.pump_spectrum_threshold;
+      if thr > 0.0 && thr < 1.0 {
+        let edge = 0.5 * p.sigma * (-thr.ln()).sqrt();
+        v.push(("off-support/outside-pump-envelope".into(), fs((w0s + 1.5 * edge, w0s + 4.0 * edge, n), (w0i + 1.5 * edge, w0i + 4.0 * edge, n))));
+      }
+    }
+  }
+  // a single point on a side (no division width is defined: (b − a)/0)
+  if ctx.rng.below(4) == 0 {
+    let n = any(ctx);
+    match ctx.rng.below(4) {
+      0 => v.push(("one-point/signal-axis".into(), fs((w0s - a, w0s + a, 1), (w0i - a, w0i + a, n)))),
+      1 => v.push(("one-point/idler-axis".into(), fs((w0s - a, w0s + a, n), (w0i - a, w0i + a, 1)))),
+      2 => v.push(("one-point/both-axes".into(), fs((w0s - a, w0s + a, 1), (w0i - a, w0i + a, 1)))),
+      _ => v.push(("one-point/degenerate-interval".into(), fs((w0s, w0s, 1), (w0i, w0i, 1)))),
+    }
+  }
+  v
+}
+
+/// the crate's validity box (`invalid_frequencies`, re-stated) and pump envelope: pairs outside carry no intensity
+fn in_box_and_envelope(s: &SPDC, ws: Frequency, wi: Frequency) -> bool {
+  let wp = fr(s.pump.frequency());
+  let (a, b) = (fr(ws), fr(wi));
+  let in_box = a > 0.0 && b > 0.0 && a <= wp && b <= wp && (a - b).abs() <= 0.75 * wp;
+  in_box && spdcalc::pump_spectral_amplitude(ws + wi, s) >= s.pump_spectrum_threshold
+}
+
+/// pairs of a list at which one of the three intensities is not a finite non-negative number, sorted into
+///  * `bad_undefined_dispersion`: the pair lies inside the crate's validity box and pump envelope, but a refractive
+///    index of signal, idler or pump (public getters) is not a finite number there — the Sellmeier equations of the
+///    crystal are undefined at that wavelength (known finding D14);
+///  * `bad_other`: everything else (e.g. a pair outside the box, where the spectra are cut to zero).
+fn bad_pairs(p: &Pm, pts: &[(Frequency, Frequency)], c: &[JSIUnits<f64>], ss: &[JSIUnits<f64>], si: &[JSIUnits<f64>]) -> String {
+  let cs = &p.s.crystal_setup;
+  let (mut undefined, mut other) = (0usize, 0usize);
+  let mut first = String::new();
+  for (k, (ws, wi)) in pts.iter().enumerate() {
+    let (cv, sv, iv) = (ju(c[k]), ju(ss[k]), ju(si[k]));
+    let good = |x: f64| x.is_finite() && x >= 0.0;
+    if good(cv) && good(sv) && good(iv) {
+      continue;
+    }
+    let idx = guard(|| (*p.s.signal.refractive_index(*ws, cs), *p.s.idler.refractive_index(*wi, cs), *p.s.pump.refractive_index(*ws + *wi, cs)))
+      .unwrap_or((f64::NAN, f64::NAN, f64::NAN));
+    let index_undefined = !(idx.0.is_finite() && idx.1.is_finite() && idx.2.is_finite());
+    let inside = guard(|| in_box_and_envelope(&p.s, *ws, *wi)).unwrap_or(false);
+    let known = inside && index_undefined;
+    if known {
+      undefined += 1;
+    } else {
+      other += 1;
+    }
+    if first.is_empty() || (!known && other == 1) {
+      // report the first pair, preferring one that is not explained by an undefined dispersion
+      first = format!(
+        "first_bad={} ws={:e} wi={:e} inside_box={} jsi={:e} singles_s={:e} singles_i={:e} n_s={:e} n_i={:e} n_p={:e}",
+        k,
+        fr(*ws),
+        fr(*wi),
+        inside as u8,
+        cv,
+        sv,
+        iv,
+        idx.0,
+        idx.1,
+        idx.2
+      );
+    }
+  }
+  if first.is_empty() {
+    first = "first_bad=none".into();
+  }
+  format!("bad_pairs={} bad_undefined_dispersion={} bad_other={} {}", undefined + other, undefined, other, first)
+}
+
+/// predicate on one `Efficiencies` result.  A rate that is NaN, infinite or negative, or an efficiency that is NaN or
+/// negative, fails outright.  An efficiency above 1 is a violation only where the longitudinal integration is
+/// converged (the statement's premise): on a grid whose points lie far out on the side lobes neither named rule is
+/// converged and the quotient of two quadrature errors is arbitrary — `refined` re-evaluates with Simpson-800 /
+/// Gauss–Legendre-120 and the excess counts only if the three rates are reproduced to 1e-3 and it persists.
+fn any_grid_verdict(ctx: &mut Ctx, p: &Pm, kind: &str, name: &str, e: &Efficiencies, refined: &dyn Fn() -> Option<Efficiencies>) -> (bool, String) {
+  let (c, rs, ri) = (*(e.coincidences / HZ), *(e.signal_singles / HZ), *(e.idler_singles / HZ));
+  let cp = if p.meta.cp { "/counter-propagating" } else { "" };
+  if !(c.is_finite() && rs.is_finite() && ri.is_finite()) {
+    return (false, format!("anygrid/rate-not-finite{}", cp));
+  }
+  if c < 0.0 || rs < 0.0 || ri < 0.0 {
+    return (false, format!("anygrid/rate-negative{}", cp));
+  }
+  if e.symmetric.is_nan() || e.signal.is_nan() || e.idler.is_nan() {
+    return (false, format!("anygrid/efficiency-nan{}", cp));
+  }
+  if e.symmetric < 0.0 || e.signal < 0.0 || e.idler < 0.0 {
+    return (false, format!("anygrid/efficiency-negative{}", cp));
+  }
+  let in01 = |x: f64| x <= 1.0 + 1e-9;
+  if in01(e.symmetric) && in01(e.signal) && in01(e.idler) {
+    return (true, "anygrid/ok".into());
+  }
+  let agree = |a: f64, b: f64| a == b || (a - b).abs() <= 1e-3 * b.abs();
+  match refined() {
+    Some(r) if agree(c, *(r.coincidences / HZ)) && agree(rs, *(r.signal_singles / HZ)) && agree(ri, *(r.idler_singles / HZ)) => {
+      if in01(r.symmetric) && in01(r.signal) && in01(r.idler) {
+        ctx.count(&format!("anygrid/excess-within-quadrature-error/{}/{}", kind, name));
+        (true, "anygrid/ok".into())
+      } else {
+        // same signature as the rates predicate: the regions of the known findings D9 / D9cp / D9z apply
+        (false, format!("rates/efficiency-outside-unit-interval{}", cp))
+      }
+    }
+    _ => {
+      ctx.count(&format!("anygrid/efficiency-excess-not-converged/{}/{}", kind, name));
+      (true, "anygrid/ok".into())
+    }
+  }
+}
+
+/// K: `JointSpectrum::jsi`, `jsi_singles` and the idler-singles route at one pair from the raw values and the
+/// normalisations (all public functions of the real crate): the zero short-circuits — a raw value of zero gives 0
+/// without touching the normalisation — and the products
+fn point_k(ctx: &mut Ctx, p: &Pm, ws: Frequency, wi: Frequency) {
+  let integ = Integrator::GaussLegendre { degree: 40 };
+  let r = guard(|| {
+    let s = &p.s;
+    let js = s.joint_spectrum(integ);
+    let sw = s.clone().with_swapped_signal_idler();
+    let a = spdcalc::jsa_raw(ws, wi, s, integ);
+    let n = *(spdcalc::jsi_normalization(ws, wi, s) / spdcalc::JsiNorm::new(1.));
+    let raw_s = spdcalc::jsi_singles_raw(ws, wi, s, integ);
+    let n_s = *(spdcalc::jsi_singles_normalization(ws, wi, s) / spdcalc::JsiSinglesNorm::new(1.));
+    let raw_i = spdcalc::jsi_singles_raw(wi, ws, &sw, integ);
+    let n_i = *(spdcalc::jsi_singles_normalization(wi, ws, &sw) / spdcalc::JsiSinglesNorm::new(1.));
+    let one = SignalIdlerFrequencyArray(vec![ws, wi]);
+    (a, n, ju(js.jsi(ws, wi)), raw_s, n_s, ju(js.jsi_singles(ws, wi)), raw_i, n_i, ju(js.jsi_singles_idler_range(one)[0]))
+  });
+  if let Some((a, n, c, raw_s, n_s, ss, raw_i, n_i, si)) = r {
+    ctx.k("jsi_point", &format!("{} {} {}", fl(a.re), fl(a.im), fl(n)), &fl(c));
+    ctx.k("jsi_singles_point", &format!("{} {}", fl(raw_s), fl(n_s)), &fl(ss));
+    ctx.k("jsi_singles_point", &format!("{} {}", fl(raw_i), fl(n_i)), &fl(si));
+    ctx.count(if raw_s == 0.0 { "point-k/raw-singles-zero" } else { "point-k/raw-singles-nonzero" });
+    if raw_s == 0.0 && !n_s.is_finite() {
+      ctx.count("point-k/raw-singles-zero-and-normalisation-not-finite");
+    }
+    if a.re == 0.0 && a.im == 0.0 && !n.is_finite() {
+      ctx.count("point-k/raw-jsa-zero-and-normalisation-not-finite");
+    }
+  }
+}
+
+fn any_grid(ctx: &mut Ctx, p: &Pm) {
+  let gl = Integrator::GaussLegendre { degree: 40 };
+  let buildable = guard(|| {
+    let _ = p.s.joint_spectrum(gl);
+    let _ = p.s.clone().with_swapped_signal_idler().joint_spectrum(gl);
+  });
+  if buildable.is_none() {
+    ctx.count("skip/joint-spectrum-panic");
+    return;
+  }
+  let refined_of = |i: Integrator| match i {
+    Integrator::Simpson { .. } => Integrator::Simpson { divs: 800 },
+    _ => Integrator::GaussLegendre { degree: 120 },
+  };
+  let cp = if p.meta.cp { "/counter-propagating" } else { "" };
+  let grids = far_grids(ctx, p);
+  for (kind, range) in grids {
+    let integ = if ctx.rng.below(3) == 0 { Integrator::Simpson { divs: 200 } } else { gl };
+    let name = integ_name(&integ);
+    let fsp = range.freq();
+    let st = fsp.as_steps();
+    let grid = format!(
+      "grid_kind={} grid={}x{} grid_min_side={} ws_lo={:e} ws_hi={:e} wi_lo={:e} wi_hi={:e}",
+      kind,
+      st.0 .2,
+      st.1 .2,
+      st.0 .2.min(st.1 .2),
+      fr(st.0 .0),
+      fr(st.0 .1),
+      fr(st.1 .0),
+      fr(st.1 .1)
+    );
+    ctx.count(&format!("anygrid/{}", kind));
+    let e = match guard(|| range.efficiencies(&p.s, integ)) {
+      Some(e) => e,
+      None => {
+        ctx.s("C08.anygrid", false, &format!("anygrid/panic{}", cp), &format!("{} integ={} {}", p.tokens(), name, grid));
+        continue;
+      }
+    };
+    let refined = || guard(|| range.efficiencies(&p.s, refined_of(integ)));
+    let (ok, sig) = any_grid_verdict(ctx, p, &kind, &name, &e, &refined);
+    // the summands: which pair of the grid is responsible
+    let bad = if ok {
+      "bad_pairs=0".to_string()
+    } else {
+      guard(|| {
+        let js = p.s.joint_spectrum(integ);
+        let pts: Vec<(Frequency, Frequency)> = fsp.as_steps().into_iter().collect();
+        bad_pairs(p, &pts, &js.jsi_range(fsp), &js.jsi_singles_range(fsp), &js.jsi_singles_idler_range(fsp))
+      })
+      .unwrap_or_else(|| "bad_pairs=panic".into())
+    };
+    // K: the three rates and the efficiencies from the arrays the real range functions return on this grid
+    // (sequential Gauss–Legendre rule, grids of at most 81 points)
+    if matches!(integ, Integrator::GaussLegendre { .. }) && st.0 .2 * st.1 .2 <= 81 {
+      let arrs = guard(|| {
+        let js = p.s.joint_spectrum(integ);
+        (js.jsi_range(fsp), js.jsi_singles_range(fsp), js.jsi_singles_idler_range(fsp))
+      });
+      if let Some((cj, sj, ij)) = arrs {
+        let corr = get_counts_correction(&p.s);
+        let g = format!("{} {} {} {} {} {}", fl(fr(st.0 .0)), fl(fr(st.0 .1)), st.0 .2, fl(fr(st.1 .0)), fl(fr(st.1 .1)), st.1 .2);
+        let tok = |v: &Vec<JSIUnits<f64>>| fls(&v.iter().map(|x| ju(*x)).collect::<Vec<_>>());
+        ctx.k(
+          "efficiencies",
+          &format!("{} {} | {} | {} | {}", fl(corr), g, tok(&cj), tok(&sj), tok(&ij)),
+          &format!(
+            "{} {} {} {} {} {}",
+            fl(e.symmetric),
+            fl(e.signal),
+            fl(e.idler),
+            fl(*(e.coincidences / HZ)),
+            fl(*(e.signal_singles / HZ)),
+            fl(*(e.idler_singles / HZ))
+          ),
+        );
+      }
+    }
+    ctx.s(
+      "C08.anygrid",
+      ok,
+      &sig,
+      &format!(
+        "{} integ={} {} C={:e} Rs={:e} Ri={:e} eff_sym={:e} eff_s={:e} eff_i={:e} {}",
+        p.tokens(),
+        name,
+        grid,
+        *(e.coincidences / HZ),
+        *(e.signal_singles / HZ),
+        *(e.idler_singles / HZ),
+        e.symmetric,
+        e.signal,
+        e.idler,
+        bad
+      ),
+    );
+  }
+
+  // pair lists (the summands of any grid that contains them) through the list routes of the spectra: a marginal scan of
+  // one photon over [−ω_p/4, 5/4 ω_p] with the partner at its centre frequency, the same in wavelengths up to the far
+  // infrared, and the half-sum / half-difference axes
+  {
+    use spdcalc::dim::f64prefixes::MICRO;
+    let (w0s, w0i, wp) = (p.s.signal.frequency(), p.s.idler.frequency(), p.s.pump.frequency());
+    let n = *ctx.rng.pick(&[13usize, 25, 41]);
+    let scan: Vec<Frequency> = Steps(-0.25 * wp, 1.25 * wp, n).into_iter().collect();
+    let which = ctx.rng.below(4);
+    let (kind, flat): (&str, Vec<Frequency>) = match which {
+      0 => ("pair-list/signal-scan", scan.iter().flat_map(|w| [*w, w0i]).collect()),
+      1 => ("pair-list/idler-scan", scan.iter().flat_map(|w| [w0s, *w]).collect()),
+      2 => {
+        // energy-conserving pairs (ω, ω_p − ω) from ω = 0 to ω_p: both ends leave the validity box
+        let sc: Vec<Frequency> = Steps(0.0 * wp, wp, n).into_iter().collect();
+        ("pair-list/energy-conserving-diagonal", sc.iter().flat_map(|w| [*w, wp - *w]).collect())
+      }
+      _ => {
+        let ls: Vec<spdcalc::Wavelength> = Steps(0.2 * MICRO * M, 200.0 * MICRO * M, n).into_iter().collect();
+        let li = p.s.idler.vacuum_wavelength();
+        ("pair-list/wavelength-scan", ls.iter().flat_map(|l| [vacuum_wavelength_to_frequency(*l), vacuum_wavelength_to_frequency(li)]).collect())
+      }
+    };
+    let integ = if ctx.rng.below(3) == 0 { Integrator::Simpson { divs: 200 } } else { gl };
+    let name = integ_name(&integ);
+    ctx.count(&format!("anygrid/{}", kind));
+    let pts: Vec<(Frequency, Frequency)> = flat.chunks_exact(2).map(|a| (a[0], a[1])).collect();
+    let r = guard(|| {
+      let js = p.s.joint_spectrum(integ);
+      if which == 3 {
+        // the wavelength list route
+        let wl: Vec<spdcalc::Wavelength> = flat.iter().map(|w| spdcalc::utils::frequency_to_vacuum_wavelength(*w)).collect();
+        let arr = || SignalIdlerWavelengthArray(wl.clone());
+        (js.jsi_range(arr()), js.jsi_singles_range(arr()), js.jsi_singles_idler_range(arr()))
+      } else {
+        let arr = || SignalIdlerFrequencyArray(flat.clone());
+        (js.jsi_range(arr()), js.jsi_singles_range(arr()), js.jsi_singles_idler_range(arr()))
+      }
+    });
+    let head = format!("{} integ={} grid_kind={} grid={}x1 grid_min_side=0 ws_lo={:e} ws_hi={:e}", p.tokens(), name, kind, pts.len(), fr(pts[0].0), fr(pts[pts.len() - 1].0));
+    match r {
+      None => ctx.s("C08.anygrid", false, &format!("anygrid/panic{}", cp), &head),
+      Some((c, ss, si)) => {
+        let all = |f: &dyn Fn(f64) -> bool| (0..pts.len()).all(|k| f(ju(c[k])) && f(ju(ss[k])) && f(ju(si[k])));
+        let finite = all(&|x| x.is_finite());
+        let nonneg = all(&|x| !(x < 0.0));
+        let ok = finite && nonneg;
+        let sig = if ok { "anygrid/ok".to_string() } else if !finite { format!("anygrid/intensity-not-finite{}", cp) } else { format!("anygrid/intensity-negative{}", cp) };
+        let bad = if ok { "bad_pairs=0".to_string() } else { bad_pairs(p, &pts, &c, &ss, &si) };
+        ctx.s("C08.anygrid", ok, &sig, &format!("{} {}", head, bad));
+      }
+    }
+    // K: the point routes at pairs of every class — zero frequency, negative, beyond the pump, the edge of the
+    // validity box, the central pair
+    let picks: Vec<(Frequency, Frequency)> = match ctx.rng.below(3) {
+      0 => vec![(0.0 * wp, w0i), (w0s, w0i), (w0s, 0.0 * wp)],
+      1 => vec![(-0.1 * wp, w0i), (0.0 * wp, wp), (1.2 * wp, w0i)],
+      _ => vec![(0.02 * wp, 0.98 * wp), (0.125 * wp, 0.875 * wp), (0.04 * wp, w0i)],
+    };
+    for (ws, wi) in picks {
+      point_k(ctx, p, ws, wi);
+    }
+  }
+}
+
+// ------------------------------------------------------------------------------------------------
 // S: efficiency formulas on rate triples
 // ------------------------------------------------------------------------------------------------
 
@@ -1164,6 +1599,8 @@ pub fn run(ctx: &mut Ctx) {
   let cp_only = mode == "cp";
   // (mode "displaced": explicit, clearly different collection foci only)
   let displaced_only = mode == "displaced";
+  // (mode "anygrid": only the grids far outside the usual window, on every setup)
+  let anygrid_only = mode == "anygrid";
   let opts = GenOpts {
     waist: if focus { (20.0, 110.0) } else { (20.0, 300.0) },
     length: if focus { (2000.0, 20000.0) } else { (500.0, 20000.0) },
@@ -1219,6 +1656,10 @@ pub fn run(ctx: &mut Ctx) {
     ctx.count(&format!("counter-propagation/{}", p.meta.cp as u8));
     let xm = p.xi_s.max(p.xi_i);
     ctx.count(&format!("xi_si/{}", if xm < 0.1 { "lt0.1" } else if xm < 0.5 { "0.1-0.5" } else if xm < 1.0 { "0.5-1" } else if xm < 3.0 { "1-3" } else { "gt3" }));
+    if anygrid_only {
+      any_grid(ctx, &p);
+      continue;
+    }
     pointwise(ctx, &p, Integrator::GaussLegendre { degree: 40 }, nu, nv);
     pointwise(ctx, &p, Integrator::Simpson { divs: 200 }, if ctx.thorough { nu } else { 1 }, if ctx.thorough { nv } else { 7 });
     rates(ctx, &p, Integrator::GaussLegendre { degree: 40 }, if ctx.thorough { 8 } else { 5 }, false);
@@ -1231,6 +1672,10 @@ pub fn run(ctx: &mut Ctx) {
       rates(ctx, &p, Integrator::Simpson { divs: 200 }, 7, true);
     }
     singles_k(ctx, &p.s, p.s.signal.frequency(), p.s.idler.frequency());
+    // grids far outside the usual window (every third setup; every second one in the thorough tier)
+    if (ctx.thorough && done % 2 == 0) || (!ctx.thorough && done % 3 == 2) {
+      any_grid(ctx, &p);
+    }
     if done % 3 == 0 {
       history_rates(ctx, &p);
     }
